@@ -562,7 +562,17 @@ reg(Prop("C16", "Move picker yields every pseudo-legal move exactly once, hash m
                     rule="sequences of MoveRanker.FailHigh calls on real positions (search-like depths, saturation with depth 30..127, "
                          "40..120 same-sign small updates, any int8 depth / int16 weight), direct History/CaptHist/Continuation.Add "
                          "sequences with arbitrary int16 bonuses, then RankQuiet of every quiet move; every touched cell read back "
-                         "through LookUp; 3% malformed history-stack entries (Go panic = model panic)")],
+                         "through LookUp; 3% malformed history-stack entries (Go panic = model panic)"),
+          StreamCfg("c16s", 600, 20000, judge="judge_c16s",
+                    rule="store sessions: ONE move.Store shared by several pickers (2..4 positions per case: play-outs, roots, "
+                         "few-quiet positions; generated / random / no hash move; driven rankers) and by plain Alloc/Push/Pop users, "
+                         "driven by a script of legal API calls built from the usage patterns framed search-like nodes (New, Push, "
+                         "Next.., Pop, children between two Next calls of the parent), unframed root (Clear, New, Next.. as picker_test.go) "
+                         "with framed children, pickers of a line created ahead and run nested later, New on a used store followed by "
+                         "Clear, frames of plain allocations between picker frames, Pop without a frame, cut-offs, probes of Frame(); "
+                         "the model runs the same script on Model/Picker.v's store (a picker = (ix, hash, state) + the store as it is "
+                         "when Next is called); judge: drained pickers yield their position's moves exactly once, hash first, cut-off "
+                         "pickers only own moves without repeats, probed frames no picker worked in hold what the script allocated, no panic")],
          trusted=["hook heur/export_verif_c16.go (MoveRanker.VerifTables returns the four unexported store pointers; cells are read "
                   "with the public LookUp methods)",
                   "the picker model is abstract over the position: IsPseudoLegal's answer, the generated noisy/quiet lists and the "
